@@ -37,6 +37,9 @@ def check_module(res, c, T):
     desc = c.describe()
     res.count("modules")
     res.hist("module_types", T)
+    if res.evaluations % 401 == 0:
+        res.sample({"type": T, "index": c.index, "controllers": dict(list(c.ad["controllers"].items())[:5]), "options": dict(list(c.ad["options"].items())[:3]),
+                    "contexts": ["synth", "clone", "project", "edit-in-place-and-save-again"]})
     g = build.gate_diff(build.expected_module(c.ad, "project"), snapshot.snap_module(m, "project"))
     g = [x for x in g if not x[0].startswith("/links")]
     if g:
@@ -158,7 +161,7 @@ def run_shard(spec_, res):
             check_module(res, c, T)
     if spec_["shard"] == 0:
         empty_synth(res)
-        res.sample({"type": "Lfo", "contexts": ["synth", "clone", "project"], "compared": "controllers, options, cmid, common fields, payload"})
+        pass
     else:
         res.count("empty_synth_refusals", 0)
     for name, msg in monitors.take_failures():
